@@ -490,3 +490,164 @@ func Harness_C09_Matrix() {
 		vAssert("no-state-from-rejected-client", len(rl.broker.sessionSubIDSet) == 0 && len(rl.dealer.calleeRegIDSet) == 1)
 	}
 }
+
+// Two overlapping handshakes on one authenticator: an attacker opens a
+// handshake as the victim and leaves its challenge unanswered; the victim then
+// authenticates; the attacker answers its own, older challenge with the
+// response it captured from the victim.
+func Harness_C09_OverlappingHandshakes() {
+	vConcreteRandomIDs(true)
+	pub, priv, err := sign.GenerateKey(rand.Reader)
+	vAssert("keypair", err == nil)
+	craKey := []byte("cra-key")
+	ks := &vKeyStore{user: "alice", keys: map[string][]byte{"wampcra": craKey, "cryptosign": pub[:]}, role: "user"}
+	method := []string{"wampcra", "cryptosign"}[vChoice("method", 2)]
+	r := vAuthRouterT(ks, 2|4, true)
+	rl := r.realms["realm1"]
+	captured := ""
+	sign1 := func(c *wamp.Challenge) string {
+		if method == "wampcra" {
+			ch, _ := wamp.AsString(c.Extra["challenge"])
+			return crsign.SignChallenge(ch, craKey)
+		}
+		chHex, _ := wamp.AsString(c.Extra["challenge"])
+		ch, _ := hex.DecodeString(chHex)
+		return hex.EncodeToString(sign.Sign(nil, ch, priv))
+	}
+	gotChallenge := make(chan struct{})
+	replayNow := make(chan struct{})
+	var attacker vHandshake
+	var attackerClosed bool
+	attackerDone := make(chan struct{})
+	go func() {
+		defer close(attackerDone)
+		attacker, attackerClosed = vDoHandshakeOn(r, vBool("attacker-local"), vHello("alice", method), func(c *wamp.Challenge) wamp.Message {
+			close(gotChallenge)
+			<-replayNow
+			return &wamp.Authenticate{Signature: captured}
+		})
+	}()
+	<-gotChallenge
+	// the victim's complete, legitimate handshake
+	victim, _ := vDoHandshakeOn(r, true, vHello("alice", method), func(c *wamp.Challenge) wamp.Message {
+		captured = sign1(c)
+		return &wamp.Authenticate{Signature: captured}
+	})
+	vCheckIdentity(rl, victim, "alice", "user", method)
+	close(replayNow)
+	<-attackerDone
+	vAssert("attacker-was-challenged", attacker.challenge != nil)
+	vAssert("captured-response-rejected-in-an-overlapping-handshake", attacker.welcome == nil && attacker.err != nil && attacker.abort != nil && attackerClosed)
+	vAssert("only-the-victim-attached", len(rl.clients) == 1)
+	vCover("overlapping-handshakes-checked")
+}
+
+// A key store that recognises returning clients by a tracking cookie
+// (auth.BypassKeyStore): only a successful authentication may earn the bypass.
+type vCookieStore struct {
+	vKeyStore
+	cookies   map[string]string // authid -> cookie that bypasses authentication
+	nWelcomes int
+}
+
+func vCookieOf(details wamp.Dict, name string) string {
+	v, err := wamp.DictValue(details, []string{"transport", "auth", name})
+	if err != nil {
+		return ""
+	}
+	s, _ := v.(string)
+	return s
+}
+
+func (k *vCookieStore) AlreadyAuth(authid string, details wamp.Dict) bool {
+	c := vCookieOf(details, "cookie")
+	return c != "" && k.cookies[authid] == c
+}
+
+func (k *vCookieStore) OnWelcome(authid string, welcome *wamp.Welcome, details wamp.Dict) error {
+	k.nWelcomes++
+	if n := vCookieOf(details, "nextcookie"); n != "" {
+		k.cookies[authid] = n
+	}
+	return nil
+}
+
+func vHandshakeWithCookie(r *router, method, cookie, next string, answer func(*wamp.Challenge) wamp.Message) vHandshake {
+	c, rp := transport.LinkedPeersQSize(8)
+	var hs vHandshake
+	done := make(chan struct{})
+	go func() {
+		defer close(done)
+		c.Send() <- vHello("alice", method)
+		for {
+			m, ok := <-c.Recv()
+			if !ok {
+				return
+			}
+			switch mm := m.(type) {
+			case *wamp.Challenge:
+				hs.challenge = mm
+				if a := answer(mm); a != nil {
+					c.Send() <- a
+				}
+			case *wamp.Welcome:
+				hs.welcome = mm
+				return
+			case *wamp.Abort:
+				hs.abort = mm
+			}
+		}
+	}()
+	hs.err = r.AttachClient(rp, wamp.Dict{"auth": wamp.Dict{"cookie": cookie, "nextcookie": next}})
+	<-done
+	return hs
+}
+
+func Harness_C09_CookieBypass() {
+	vConcreteRandomIDs(true)
+	craKey := []byte("cra-key")
+	ks := &vCookieStore{vKeyStore: vKeyStore{user: "alice", keys: map[string][]byte{"ticket": []byte("s3cr3t"), "wampcra": craKey}, role: "user"}, cookies: map[string]string{}}
+	method := []string{"ticket", "wampcra"}[vChoice("method", 2)]
+	const tmo = 200_000_000
+	r := vNewRouter(&Config{RealmConfigs: []*RealmConfig{{URI: "realm1", RequireLocalAuth: true,
+		Authenticators: []auth.Authenticator{auth.NewTicketAuthenticator(ks, tmo), auth.NewCRAuthenticator(ks, tmo)}}}})
+	rl := r.realms["realm1"]
+	answerKind := vChoice("first.answer", 4) // 0 correct, 1 wrong, 2 not an AUTHENTICATE, 3 silence
+	mkAnswer := func(kind int) func(*wamp.Challenge) wamp.Message {
+		return func(c *wamp.Challenge) wamp.Message {
+			switch kind {
+			case 2:
+				return &wamp.Subscribe{Request: 1, Topic: "x"}
+			case 3:
+				return nil
+			}
+			if method == "ticket" {
+				if kind == 0 {
+					return &wamp.Authenticate{Signature: "s3cr3t"}
+				}
+				return &wamp.Authenticate{Signature: "wrong"}
+			}
+			ch, _ := wamp.AsString(c.Extra["challenge"])
+			key := craKey
+			if kind != 0 {
+				key = []byte("other-key")
+			}
+			return &wamp.Authenticate{Signature: crsign.SignChallenge(ch, key)}
+		}
+	}
+	hs1 := vHandshakeWithCookie(r, method, "c1", "n1", mkAnswer(answerKind))
+	vAssert("first-handshake-challenged", hs1.challenge != nil)
+	vAssert("welcome-iff-valid-response", (hs1.welcome != nil) == (answerKind == 0))
+	vAssert("keystore-told-of-success-only", ks.nWelcomes == vIteInt(answerKind == 0, 1, 0))
+	// the same client comes back presenting the cookie it was handed in the
+	// first connection, and does not know the secret
+	hs2 := vHandshakeWithCookie(r, method, "n1", "n2", mkAnswer(1))
+	if answerKind == 0 {
+		vAssert("returning-authenticated-client-bypasses", hs2.welcome != nil && hs2.challenge == nil)
+		vCover("cookie-bypass-used")
+	} else {
+		vAssert("failed-login-earns-no-bypass", hs2.welcome == nil && hs2.challenge != nil && hs2.err != nil)
+		vAssert("nobody-attached", len(rl.clients) == 0)
+		vCover("no-bypass-after-failure")
+	}
+}
